@@ -218,7 +218,10 @@ sim::RunResult run(const Json& sc) {
 
   // ---------------- writer party
   std::string werr;
-  if (bin) {
+  if (sc.has("raw")) {
+    // hand-made file (minimised findings): no writer party
+    sim::write_file(path, sc["raw"].as_str());
+  } else if (bin) {
     SolBinOpts bo; bo.with_options = sc["binopts"]["with_options"].as_bool(true); bo.objno_short = sc["binopts"]["objno_short"].as_bool(false);
     sim::write_file(path, emit_sol_binary(s, bo).bytes);
   } else {
